@@ -4,6 +4,7 @@
 #![allow(dead_code)]
 pub mod engines;
 pub mod gen;
+pub mod lexicon;
 pub mod likely;
 pub mod model;
 pub mod mon;
